@@ -300,6 +300,77 @@ theorem C18_forms_agree_channel_flag (restOk : Str → Bool) (v : Str) (g0 name 
   have e4 : channelFlagHostIdx = 4 := by decide
   simp [parseOp, channelFlag, h, e1, e2, e3, e4]
 
+
+/-! ## names are taken from where the documentation says -/
+
+theorem dispatch_name (p : Pos) (s n : Str) (c : String) (s' n' : Str)
+    (h : dispatch p s n = .ok c s' n') : n' = n := by
+  unfold dispatch at h
+  split at h
+  · cases h; rfl
+  · split at h
+    · cases h
+    · cases h; rfl
+
+/-- `--listen <channel>~<listen-url>[~<forward-url>]`: an accepted spec is named by its first part and
+    typed by the scheme of its second part, whatever follows (extra `~` parts are ignored, never reinterpreted) -/
+theorem C18_listener_parts (restOk : Str → Bool) (v : Str) (c : String) (s n : Str)
+    (h : listenerFlag restOk v = .ok c s n) :
+    n = (splitOnChar '~' (trim v)).getD 0 [] ∧
+    parseAddress restOk ((splitOnChar '~' (trim v)).getD 1 []) = .ok s ∧
+    lookup listenerSchemes s = some c := by
+  have e0 : listenerNameIdx = 0 := by decide
+  have e1 : listenerAddrIdx = 1 := by decide
+  unfold listenerFlag at h
+  simp only [e0, e1] at h
+  split at h
+  · cases h
+  · split at h
+    · split at h
+      · cases h
+      · rename_i s0 hp
+        split at h
+        · cases h
+        · have hn := dispatch_name _ _ _ _ _ _ h
+          have hs : s = s0 ∧ lookup listenerSchemes s0 = some c := by
+            unfold dispatch at h
+            split at h
+            · rename_i ctor hl; cases h; exact ⟨rfl, hl⟩
+            · split at h
+              · cases h
+              · have : defaultIsError .listener = true := by decide
+                simp_all
+          obtain ⟨rfl, hl⟩ := hs
+          exact ⟨hn, hp, hl⟩
+    · cases h
+
+/-- `--channel <name>-><protocol>:<address>`: an accepted flag is named by the text before `->` -/
+theorem C18_channel_flag_name (restOk : Str → Bool) (v : Str) (c : String) (s n : Str)
+    (h : channelFlag restOk v = .ok c s n) : n = v.takeWhile nameChar := by
+  have e1 : channelFlagViaTable = true := by decide
+  have e2 : channelFlagNameIdx = 1 := by decide
+  unfold channelFlag at h
+  split at h
+  · cases h
+  · rename_i g hg
+    simp only [e1, e2, if_true] at h
+    have hg1 : g.getD 1 [] = v.takeWhile nameChar := by
+      unfold channelRegexMatch at hg
+      simp only at hg
+      split at hg
+      · cases hg
+      · split at hg
+        · cases hg
+        · split at hg
+          · cases hg; rfl
+          · cases hg
+    rw [hg1] at h
+    unfold unmarshalElem parseAndDispatch at h
+    simp only at h
+    split at h
+    · cases h
+    · exact dispatch_name _ _ _ _ _ _ h
+
 /-! ## C18_no_panic_config -/
 
 theorem dispatch_no_panic (p : Pos) (s n : Str) : dispatch p s n ≠ .panic := by
@@ -382,4 +453,6 @@ end SA.Props.C18
 #print axioms SA.Props.C18.C18_undocumented_consistent_or_error
 #print axioms SA.Props.C18.C18_forms_agree
 #print axioms SA.Props.C18.C18_forms_agree_channel_flag
+#print axioms SA.Props.C18.C18_listener_parts
+#print axioms SA.Props.C18.C18_channel_flag_name
 #print axioms SA.Props.C18.C18_no_panic_config
